@@ -41,6 +41,7 @@ fn main() {
         "C02" => props::c02::run(&mut ctx),
         "C03" => props::c03::run(&mut ctx),
         "C06" => props::c06::run(&mut ctx),
+        "C07" => props::c07::run(&mut ctx),
         "C10" => props::c10::run(&mut ctx),
         "C12" => props::c12::run(&mut ctx),
         "C16" => props::c16::run(&mut ctx),
@@ -113,6 +114,13 @@ fn main() {
             let case = ctx.only_case.expect("--case");
             let mut rng = ctx.rng_for("C16", case);
             props::c16::debug_composition(&mut rng);
+        }
+        "debug-wat" => {
+            let text = ctx.replay_input.as_ref().and_then(|v| v.as_str()).expect("json string").to_string();
+            match wat::parse_str(&text) {
+                Ok(b) => println!("parsed {} bytes; validate: {:?}", b.len(), decode::validate(&b)),
+                Err(e) => println!("wat error: {e}"),
+            }
         }
         "debug-parse" => {
             // worker debug-parse --replay-input file.json  (json string = source text)
